@@ -5,6 +5,7 @@ From Coq Require Import ZArith.
 From Sbepp Require Import CInt.
 From Sbepp Require Import Bitset.
 From Sbepp Require Import Bytes Msg Layout Wire.
+From Sbepp Require Import Cursor.
 Extraction Language OCaml.
 Extraction "model.ml"
   Z.add
@@ -44,6 +45,7 @@ Extraction "model.ml"
   Bitset.spec_get
   Bitset.spec_set
   Bitset.visit_set
+  Bytes.in_buf
   Bytes.enc
   Bytes.dec
   Bytes.interp
@@ -80,4 +82,16 @@ Extraction "model.ml"
   Layout.member_offsets
   Msg.msg_fill_header
   Wire.over_message
-  Wire.over_size.
+  Wire.over_size
+  Cursor.cur_field
+  Cursor.cur_group
+  Cursor.cur_data
+  Cursor.trav_message
+  Cursor.cacc_of
+  Cursor.size_check
+  Cursor.data_size_at
+  Msg.nth_group_pos
+  Msg.nth_data_pos
+  Msg.groups_end
+  Msg.default_fuel
+  Msg.group_at.
